@@ -3,6 +3,7 @@
   one canonical output line.  Pure (`String → String`); the I/O shell is in
   `Driver/Main.lean`.  Core Lean only.
 -/
+import GoIpa.Model.FrInverse
 import GoIpa.Model.Serde
 import GoIpa.Model.Ranges
 import GoIpa.Model.Precomp
@@ -375,7 +376,7 @@ def opFrUn (a : String) : String :=
     let three : Fr := Zp.ofNat R 3
     let five : Fr := Zp.ofNat R 5
     let thirteen : Fr := Zp.ofNat R 13
-    s!"{frHex (-a)} {frHex (a + a)} {frHex a⁻¹} {frHex (a * a)} {Fr.legendre a} {sqrtCanon (Fr.sqrtRef a)} {frHex (three * a)} {frHex (five * a)} {frHex (thirteen * a)} {hexOfBytes a.bytesLE}"
+    s!"{frHex (-a)} {frHex (a + a)} {frHex (FrInv.inverseValue a)} {frHex (a * a)} {Fr.legendre a} {sqrtCanon (Fr.sqrtRef a)} {frHex (three * a)} {frHex (five * a)} {frHex (thirteen * a)} {hexOfBytes a.bytesLE}"
   | none => "bad-op"
 
 def opFrDec (kind data : String) : String :=
